@@ -737,6 +737,7 @@ func cmdCheck(prop string, args []string) {
 	otherProps := map[string]int{}
 	artefacts := 0
 	oomOnce := 0
+	loadStalls := 0
 	type group struct {
 		prop, sig string
 		ex        []*payload
@@ -852,7 +853,7 @@ func cmdCheck(prop string, args []string) {
 			if nviol == 0 {
 				exit = 0
 			}
-			artefacts += len(g.ex)
+			loadStalls += len(g.ex)
 			fmt.Printf("vcheck: %d run(s) hit the watchdog once but do not stall when replayed (%s): counted as abandoned runs\n", len(g.ex), final.ReplaysOK)
 			continue
 		}
@@ -896,6 +897,11 @@ func cmdCheck(prop string, args []string) {
 		}
 	}
 	total.probes["harness.runs-abandoned-synctest-mutex-artefact"] += artefacts
+	total.probes["harness.runs-abandoned-watchdog-under-load-not-reproducible"] += loadStalls
+	if loadStalls > 10+total.runs/2000 {
+		// (a stall that is a property of the code reproduces from its tape; these did not)
+		infra = append(infra, fmt.Sprintf("%d runs hit the watchdog without stalling when replayed: too many for %d runs (is the machine overloaded?)", loadStalls, total.runs))
+	}
 	total.probes["harness.runs-abandoned-out-of-memory-not-reproducible"] += oomOnce
 	if oomOnce > 3+total.runs/100000 {
 		infra = append(infra, fmt.Sprintf("%d runs ended with a non-reproducible out of memory: too many for %d runs", oomOnce, total.runs))
